@@ -1,9 +1,9 @@
 (* model / spec driver for component ServerWrite (C13).
-   The Coq model has micro-steps (Write, Dispatch, CloseSweep, ... ; for two clients On c x, Collect,
+   The Coq model has micro-steps (Write, Dispatch, CloseSweep, ... ; for several clients On c x, Collect,
    Deliver, Sweep).  This driver composes them the way the harness drives the real Server: one
    `ev`/`evs`/`poll`/`tick` line is one Server::run() call.
      one client (default):  closing-clients pass ; at most one poll event ; closing-clients pass
-     two clients (case config `two`):  loop { closing-clients pass ; poll() : when no collected event
+     n clients (case config `two` / `three` / `four`):  loop { closing-clients pass ; poll() : when no collected event
        is left, ask the kernel - the first time it reports the scripted round, the second time the
        interrupt, which ends the run ; dispatch the oldest collected event - an event that has lost
        all its flags is handled by run() like a timeout and, the interrupt flag being set, ends the run }
@@ -15,8 +15,14 @@
    Mode `monitor`: the property-level monitor (ServerWriteMonitor.v, one instance per client) reads the
    ordered event trace observed on the implementation (written by checks/C13.py from the harness
    output) and prints one verdict per case:
-     wr <c> | re | w <c> <data> <ret> <post|-> <tx> | h <c> <hex> | b <c> | f <c> | cb <c> <name> |
-     su <c> <0|1> | sz <c> <n> | pr <c> <hex>     (c = 0 / 1: client A / B) *)
+     wr <c> | rd <c> | re | w <c> <data> <ret> <post|-> <tx> | h <c> <hex> | b <c> | f <c> | cb <c> <name> |
+     su <c> <0|1> | sz <c> <n> | pr <c> <hex>     (c = 0 .. 3: client A .. D)
+   The monitor driver is TOTAL on whatever the implementation printed: a number it cannot read (not decimal
+   digits) in a size position is itself a contradiction of clause `size`; anything else it cannot read is
+   reported as `malformed` - never an exception.
+
+   `evsi <A:..,B:..>`: the poll round of `evs`, but the interrupt is reported in the same epoll batch: the events
+   are collected and the run() returns (closing-clients pass ; Collect); the next run() hands them out. *)
 open Model
 open Zconv
 
@@ -31,28 +37,63 @@ let parse_mask s = { nin = String.contains s 'i'; nout = String.contains s 'o'; 
 let cb_name c = match c with OnRead -> "onRead" | OnWrite -> "onWrite" | OnClosed -> "onClosed"
 let cb_index c = match c with OnRead -> 0 | OnWrite -> 1 | OnClosed -> 2
 
+(* decimal digits of any length -> z (None: not a decimal number) *)
+let z_of_dec_opt (s : string) : z option =
+  let n = String.length s in
+  let neg = n > 0 && s.[0] = '-' in
+  let start = if neg then 1 else 0 in
+  if n - start < 1 || n - start > 4000 then None
+  else begin
+    let ok = ref true in
+    for i = start to n - 1 do if s.[i] < '0' || s.[i] > '9' then ok := false done;
+    if not !ok then None
+    else begin
+      (* repeated division of the digit string by 2: bits, least significant first *)
+      let d = Array.init (n - start) (fun i -> Char.code s.[start + i] - 48) in
+      let len = Array.length d in
+      let is_zero () = Array.for_all (fun x -> x = 0) d in
+      let bits = ref [] in
+      while not (is_zero ()) do
+        let rem = ref 0 in
+        for i = 0 to len - 1 do
+          let cur = !rem * 10 + d.(i) in
+          d.(i) <- cur / 2; rem := cur mod 2
+        done;
+        bits := !rem :: !bits            (* most significant first at the end *)
+      done;
+      match !bits with
+      | [] -> Some Z0
+      | _ :: rest ->                       (* the leading bit is 1 *)
+          let p = List.fold_left (fun acc b -> if b = 1 then XI acc else XO acc) XH rest in
+          Some (if neg then Zneg p else Zpos p)
+    end
+  end
+
+let letter i = String.make 1 (Char.chr (65 + i))
+
 (* a micro operation of either machine *)
 type mop =
   | M1 of op                     (* one-client machine *)
-  | M2 of op2                    (* two-client machine *)
+  | M2 of op2                    (* n-client machine *)
 
-(* what a micro-step shows: the client it belongs to (two clients), the observation, idle *)
+(* what a micro-step shows: the client it belongs to (several clients), the observation, idle *)
 type mout = { who : int; o : out; idle : bool }
 
 type machine = {
-  two : bool;
+  two : bool;                       (* more than one client: observations carry client letters *)
+  nc : int;
   step : mop -> mout option;        (* None: the spec makes no claim *)
   state : unit -> string;           (* the ' | ...' sections *)
   rest : unit -> string;            (* what the peers have been sent and have not reported yet *)
-  cache_empty : unit -> bool;       (* two clients: no collected event is left *)
+  cache_empty : unit -> bool;       (* several clients: no collected event is left *)
 }
 
 (* accumulated view of one op line *)
 type acc = { mutable ret : string; mutable num : string; mutable cbs : string list; mutable tx : z list array;
              mutable sends : string list; mutable data : z list; mutable dead : bool; mutable unspec : bool }
-let new_acc () = { ret = "-"; num = "-"; cbs = []; tx = [| []; [] |]; sends = []; data = []; dead = false; unspec = false }
+let new_acc () = { ret = "-"; num = "-"; cbs = []; tx = Array.make 4 []; sends = []; data = []; dead = false; unspec = false }
 
-let tag two who s = if two then (if who = 1 then "B." else "A.") ^ s else s
+let tag two who s = if two then letter who ^ "." ^ s else s
 
 let add_out two a (mo : mout) first =
   let o = mo.o in
@@ -61,7 +102,7 @@ let add_out two a (mo : mout) first =
    | None -> ());
   a.cbs <- a.cbs @ List.map (fun c -> tag two mo.who (cb_name c)) o.o_cbs;
   a.tx.(mo.who) <- a.tx.(mo.who) @ o.o_tx;
-  a.sends <- a.sends @ List.map (fun (n, r) -> (if two then (if mo.who = 1 then "B:" else "A:") else "") ^ dec_of_z n ^ ">" ^ dec_of_z r) o.o_sends;
+  a.sends <- a.sends @ List.map (fun (n, r) -> (if two then letter mo.who ^ ":" else "") ^ dec_of_z n ^ ">" ^ dec_of_z r) o.o_sends;
   a.data <- a.data @ o.o_data;
   (* "dead" = the operation found the client removed; a removal from inside one of its own
      callbacks does not make the operation itself dead *)
@@ -73,25 +114,24 @@ let print_acc name a m nonum =
   if a.unspec then emit "??*"
   else
     emit (Printf.sprintf "%s r=%s n=%s cb=%s tx=%s sends=%s data=%s%s%s" name a.ret (if nonum then "-" else a.num) (lst a.cbs)
-            (if m.two then hex_of_bytes a.tx.(0) ^ "/" ^ hex_of_bytes a.tx.(1) else hex_of_bytes a.tx.(0))
+            (String.concat "/" (List.init m.nc (fun i -> hex_of_bytes a.tx.(i))))
             (lst a.sends) (hex_of_bytes a.data) (if a.dead then " dead" else "") (m.state ()))
 
-let reactq : string list Queue.t array array = Array.init 2 (fun _ -> Array.init 3 (fun _ -> Queue.create ()))
+let reactq : string list Queue.t array array = Array.init 4 (fun _ -> Array.init 3 (fun _ -> Queue.create ()))
 
 let split_prefix s =
-  if String.length s > 2 && s.[1] = '.' && (s.[0] = 'A' || s.[0] = 'B') then
-    ((if s.[0] = 'B' then 1 else 0), String.sub s 2 (String.length s - 2))
+  if String.length s > 2 && s.[1] = '.' && s.[0] >= 'A' && s.[0] <= 'D' then
+    (Char.code s.[0] - 65, String.sub s 2 (String.length s - 2))
   else (0, s)
 
-let is_run name = name = "ev" || name = "evs" || name = "poll" || name = "tick"
+let is_run name = name = "ev" || name = "evs" || name = "evsi" || name = "poll" || name = "tick"
 
-(* A:io,B:i -> the Collect operation: which client is reported first, the readiness of each *)
-let parse_events s =
+(* A:io,B:i -> the Collect operation: the clients the kernel reports in this round, in this order, with their readiness
+   (a client the case does not have is not reported) *)
+let parse_events nc s =
   let parts = if s = "-" then [] else String.split_on_char ',' s in
-  let evs = List.map (fun p -> ((if p.[0] = 'B' then 1 else 0), parse_mask (String.sub p 2 (String.length p - 2)))) parts in
-  let first = match evs with (1, _) :: _ -> true | _ -> false in
-  let find c = try Some (List.assoc c evs) with Not_found -> None in
-  Collect (first, find 0, find 1)
+  let evs = List.map (fun p -> (Char.code p.[0] - 65, parse_mask (String.sub p 2 (String.length p - 2)))) parts in
+  Collect (List.map (fun (c, n) -> (nat_of_int c, n)) (List.filter (fun (c, _) -> c >= 0 && c < nc) evs))
 
 let rec exec m (toks : string list) (nested : bool) : unit =
   match toks with
@@ -102,7 +142,7 @@ let rec exec m (toks : string list) (nested : bool) : unit =
       emit "react"
   | name :: args ->
       let (idx, opn) = split_prefix name in
-      let c = (idx = 1) in
+      let c = nat_of_int idx in
       let a = new_acc () in
       (* one micro-step; reactions run right after a delivered callback *)
       let nmicro = ref 0 in
@@ -114,7 +154,14 @@ let rec exec m (toks : string list) (nested : bool) : unit =
             add_out m.two a mo (!nmicro = 1);
             List.iter (fun cb ->
                 let w = cb_index cb in
-                if not (Queue.is_empty reactq.(mo.who).(w)) then exec m (Queue.pop reactq.(mo.who).(w)) true) mo.o.o_cbs;
+                if not (Queue.is_empty reactq.(mo.who).(w)) then begin
+                  (* `op & op & ...`: several operations inside one callback invocation *)
+                  let rec parts acc cur = function
+                    | [] -> List.rev (List.rev cur :: acc)
+                    | "&" :: t -> parts (List.rev cur :: acc) [] t
+                    | x :: t -> parts acc (x :: cur) t in
+                  List.iter (fun p -> if p <> [] then exec m p true) (parts [] [] (Queue.pop reactq.(mo.who).(w)))
+                end) mo.o.o_cbs;
             Some mo in
       let on (x : op) = if m.two then M2 (On (c, x)) else M1 x in
       (* ---- one client ---- *)
@@ -127,13 +174,13 @@ let rec exec m (toks : string list) (nested : bool) : unit =
         sweep1 1000;
         (match ev with Some x -> ignore (micro (M1 x)) | None -> ());
         sweep1 1000 in
-      (* ---- two clients ---- *)
+      (* ---- several clients ---- *)
       let rec sweep2 fuel =
         if fuel > 0 && not a.unspec then
           match micro (M2 Sweep) with
           | Some mo when not mo.idle -> sweep2 (fuel - 1)
           | _ -> () in
-      let run2 (round : op2 option) (outcomes : outcome list) =
+      let run2 ?(with_intr = false) (round : op2 option) (outcomes : outcome list) =
         let q = ref outcomes in
         let asked = ref false in
         let rec loop fuel =
@@ -148,7 +195,8 @@ let rec exec m (toks : string list) (nested : bool) : unit =
                   else begin
                     asked := true;
                     (match round with Some r -> ignore (micro (M2 r)) | None -> ());
-                    not a.unspec && not (m.cache_empty ())             (* nothing reported: the interrupt *)
+                    (* the interrupt in the same batch: the events stay cached, poll() returns without flags, run() returns *)
+                    not with_intr && not a.unspec && not (m.cache_empty ())     (* nothing reported: the interrupt *)
                   end
                 end else true in
               if go then begin
@@ -172,11 +220,14 @@ let rec exec m (toks : string list) (nested : bool) : unit =
         | "write", [h; o] -> ignore (micro (on (Write (bytes_of_hex h, parse_outcome o))))
         | "write0", [h; o] -> nonum := true; ignore (micro (on (Write (bytes_of_hex h, parse_outcome o))))
         | "ev", [mk; o] ->
-            if m.two then run2 (Some (if c then Collect (true, None, Some (parse_mask mk)) else Collect (false, Some (parse_mask mk), None))) [parse_outcome o]
+            if m.two then run2 (Some (Collect [(c, parse_mask mk)])) [parse_outcome o]
             else run1 (Some (Dispatch (parse_mask mk, parse_outcome o)))
         | "evs", evs :: os ->
-            if m.two then run2 (Some (parse_events evs)) (List.map parse_outcome os)
-            else failwith "evs needs a `two` case"
+            if m.two then run2 (Some (parse_events m.nc evs)) (List.map parse_outcome os)
+            else failwith "evs needs a case with several clients"
+        | "evsi", evs :: os ->
+            if m.two then run2 ~with_intr:true (Some (parse_events m.nc evs)) (List.map parse_outcome os)
+            else failwith "evsi needs a case with several clients"
         | "poll", [o] -> if m.two then failwith "poll: one-client cases only" else run1 (Some (PollReal (parse_outcome o)))
         | "tick", os -> if m.two then run2 None (List.map parse_outcome os) else run1 None
         | "suspend", [] -> ignore (micro (on Suspend))
@@ -196,15 +247,15 @@ let mask_string (s : st) =
   else if not s.int_r && not s.int_w then "0"
   else (if s.int_r then "r" else "") ^ (if s.int_w then "w" else "") ^ "d"
 
-let who_of (c : bool option) = match c with Some true -> 1 | _ -> 0
+let who_of (c : nat option) = match c with Some k -> int_of_nat k | None -> 0
 
 (* ---- one client ---- *)
 let model_machine () : machine =
   let st = ref init in
-  { two = false;
+  { two = false; nc = 1;
     step = (fun x -> match x with
         | M1 x -> let (s', o) = step !st x in st := s'; Some { who = 0; o = o; idle = false }
-        | M2 _ -> failwith "two-client operation in a one-client case");
+        | M2 _ -> failwith "several-client operation in a one-client case");
     state = (fun () ->
         let s = !st in
         if s.removed then " | sb=- susp=- | k=-"
@@ -215,11 +266,11 @@ let model_machine () : machine =
 let spec_machine () : machine =
   let st = ref spec_init in
   let lost = ref false in     (* some operation was outside the spec's claims: its bookkeeping of the wire is void *)
-  { two = false;
+  { two = false; nc = 1;
     step = (fun x -> match x with
         | M1 x -> let (t', o) = spec_step !st x in st := t'; (if o = None then lost := true);
             (match o with Some o -> Some { who = 0; o = o; idle = false } | None -> None)
-        | M2 _ -> failwith "two-client operation in a one-client case");
+        | M2 _ -> failwith "several-client operation in a one-client case");
     state = (fun () ->
         let t = !st in
         if t.s_dead then " | sb=- susp=-"
@@ -228,69 +279,82 @@ let spec_machine () : machine =
              if !lost then "?" else hex_of_bytes (if t.s_peer_closed then [] else t.s_wire));
     cache_empty = (fun () -> true) }
 
-(* ---- two clients ---- *)
-let pair f a b = f a ^ "/" ^ f b
+(* ---- n clients ---- *)
+let per nc f = String.concat "/" (List.init nc f)
 
-let model_machine2 () : machine =
+let model_machine2 (nc : int) : machine =
   let st = ref init2 in
-  { two = true;
+  let cl i : st = get2 !st (nat_of_int i) in
+  { two = true; nc = nc;
     step = (fun x -> match x with
         | M2 x -> let (m', r) = step2 !st x in st := m'; Some { who = who_of r.o2_c; o = r.o2_out; idle = r.o2_idle }
-        | M1 _ -> failwith "one-client operation in a `two` case");
+        | M1 _ -> failwith "one-client operation in a case with several clients");
     state = (fun () ->
-        let m = !st in
         Printf.sprintf " | sb=%s susp=%s | k=%s"
-          (pair (fun (s : st) -> if s.removed then "-" else dec_of_z (getSendBufferSize s)) m.cl0 m.cl1)
-          (pair (fun (s : st) -> if s.removed then "-" else if isSuspended s then "1" else "0") m.cl0 m.cl1)
-          (pair (fun (s : st) -> if s.removed then "-" else mask_string s) m.cl0 m.cl1));
-    rest = (fun () -> let m = !st in pair (fun (s : st) -> hex_of_bytes (if s.peer_closed then [] else s.wire)) m.cl0 m.cl1);
+          (per nc (fun i -> let s = cl i in if s.removed then "-" else dec_of_z (getSendBufferSize s)))
+          (per nc (fun i -> let s = cl i in if s.removed then "-" else if isSuspended s then "1" else "0"))
+          (per nc (fun i -> let s = cl i in if s.removed then "-" else mask_string s)));
+    rest = (fun () -> per nc (fun i -> let s = cl i in hex_of_bytes (if s.peer_closed then [] else s.wire)));
     cache_empty = (fun () -> !st.sel = []) }
 
-let spec_machine2 () : machine =
+let spec_machine2 (nc : int) : machine =
   let st = ref spec_init2 in
   let lost = ref false in
-  { two = true;
+  let cl i : sst = sget !st (nat_of_int i) in
+  { two = true; nc = nc;
     step = (fun x -> match x with
         | M2 x -> let (u', r) = spec_step2 !st x in st := u'; (if r = None then lost := true);
             (match r with Some r -> Some { who = who_of r.o2_c; o = r.o2_out; idle = r.o2_idle } | None -> None)
-        | M1 _ -> failwith "one-client operation in a `two` case");
+        | M1 _ -> failwith "one-client operation in a case with several clients");
     state = (fun () ->
-        let u = !st in
         Printf.sprintf " | sb=%s susp=%s"
-          (pair (fun (t : sst) -> if t.s_dead then "-" else dec_of_z (zlen t.q)) u.t0 u.t1)
-          (pair (fun (t : sst) -> if t.s_dead then "-" else if t.s_susp then "1" else "0") u.t0 u.t1));
-    rest = (fun () -> let u = !st in
-             if !lost then "?" else pair (fun (t : sst) -> hex_of_bytes (if t.s_peer_closed then [] else t.s_wire)) u.t0 u.t1);
+          (per nc (fun i -> let t = cl i in if t.s_dead then "-" else dec_of_z (zlen t.q)))
+          (per nc (fun i -> let t = cl i in if t.s_dead then "-" else if t.s_susp then "1" else "0")));
+    rest = (fun () ->
+             if !lost then "?" else per nc (fun i -> let t = cl i in hex_of_bytes (if t.s_peer_closed then [] else t.s_wire)));
     cache_empty = (fun () -> !st.pend = []) }
 
 (* ---- the property monitor on an observed trace ---- *)
-type mstate = { mons : mon array; mutable bad : (int * int * int) option; mutable nev : int }
+type mstate = { mons : mon array; mutable bad : (int * string * int) option; mutable nev : int }
 
 let clause_name c = match c with
-  | 1 -> "stream" | 2 -> "size" | 3 -> "onWrite" | 4 -> "suspended" | 5 -> "progress" | 6 -> "peer" | _ -> "?"
+  | 1 -> "stream" | 2 -> "size" | 3 -> "onWrite" | 4 -> "suspended" | 5 -> "progress" | 6 -> "peer" | 7 -> "resumed" | _ -> "?"
+
+let nmon = 4
 
 let feed (ms : mstate) (c : int) (e : pev) =
   if ms.bad = None then
     match mon_step ms.mons.(c) e with
     | Go m -> ms.mons.(c) <- m
-    | Stop k -> ms.bad <- Some (ms.nev, int_of_z k, c)
+    | Stop k -> ms.bad <- Some (ms.nev, clause_name (int_of_z k), c)
+
+exception Unreadable_size of int
 
 let monitor_event (ms : mstate) (toks : string list) : mstate =
-  let cl s = if s = "1" then 1 else 0 in
-  let cbk s = match s with "onRead" -> OnRead | "onWrite" -> OnWrite | _ -> OnClosed in
-  (match toks with
-   | ["wr"; c] -> feed ms (cl c) EWritable
-   | ["re"] -> feed ms 0 ERunEnd; feed ms 1 ERunEnd
-   | ["w"; c; d; ret; post; tx] ->
-       feed ms (cl c) (EWrite (bytes_of_hex d, ret = "1", (if post = "-" then None else Some (z_of_int (int_of_string post))), bytes_of_hex tx))
-   | ["h"; c; tx] -> feed ms (cl c) (EHand (bytes_of_hex tx))
-   | ["b"; c] -> feed ms (cl c) EBlock
-   | ["f"; c] -> feed ms (cl c) EFault
-   | ["cb"; c; name] -> feed ms (cl c) (ECb (cbk name))
-   | ["su"; c; b] -> feed ms (cl c) (ESusp (b = "1"))
-   | ["sz"; c; n] -> feed ms (cl c) (ESize (z_of_int (int_of_string n)))
-   | ["pr"; c; d] -> feed ms (cl c) (EPeer (bytes_of_hex d))
-   | _ -> failwith ("bad event: " ^ String.concat " " toks));
+  let cl s = match int_of_string_opt s with Some k when k >= 0 && k < nmon -> k | _ -> failwith "client" in
+  let cbk s = match s with "onRead" -> OnRead | "onWrite" -> OnWrite | "onClosed" -> OnClosed | _ -> failwith "callback" in
+  (* a reported size the driver cannot read as a number contradicts clause `size` *)
+  let num c s = match z_of_dec_opt s with Some z -> z | None -> raise (Unreadable_size c) in
+  (if ms.bad = None then
+   try
+    (match toks with
+     | ["wr"; c] -> feed ms (cl c) EWritable
+     | ["rd"; c] -> feed ms (cl c) EReadable
+     | ["re"] -> for c = 0 to nmon - 1 do feed ms c ERunEnd done
+     | ["w"; c; d; ret; post; tx] ->
+         let c = cl c in
+         feed ms c (EWrite (bytes_of_hex d, ret = "1", (if post = "-" then None else Some (num c post)), bytes_of_hex tx))
+     | ["h"; c; tx] -> feed ms (cl c) (EHand (bytes_of_hex tx))
+     | ["b"; c] -> feed ms (cl c) EBlock
+     | ["f"; c] -> feed ms (cl c) EFault
+     | ["cb"; c; name] -> feed ms (cl c) (ECb (cbk name))
+     | ["su"; c; b] -> feed ms (cl c) (ESusp (b = "1"))
+     | ["sz"; c; n] -> let c = cl c in feed ms c (ESize (num c n))
+     | ["pr"; c; d] -> feed ms (cl c) (EPeer (bytes_of_hex d))
+     | _ -> failwith "event")
+   with
+   | Unreadable_size c -> ms.bad <- Some (ms.nev, "size", c)
+   | _ -> ms.bad <- Some (ms.nev, "malformed", 0));
   ms.nev <- ms.nev + 1;
   ms
 
@@ -298,17 +362,17 @@ let () =
   let mode = Sys.argv.(1) and file = Sys.argv.(2) in
   if mode = "monitor" then
     run_cases file
-      (fun _ -> { mons = [| mon_init; mon_init |]; bad = None; nev = 0 })
+      (fun _ -> { mons = Array.make nmon mon_init; bad = None; nev = 0 })
       (fun ms _ toks -> monitor_event ms toks)
       (fun ms -> match ms.bad with
          | None -> emit "verdict ok"
-         | Some (i, k, c) -> emit (Printf.sprintf "verdict bad %d %s %d" i (clause_name k) c))
+         | Some (i, k, c) -> emit (Printf.sprintf "verdict bad %d %s %d" i k c))
   else
   run_cases file
     (fun cfg ->
        Array.iter (Array.iter Queue.clear) reactq;
-       let two = List.mem "two" cfg in
-       if mode = "model" then (if two then model_machine2 () else model_machine ())
-       else (if two then spec_machine2 () else spec_machine ()))
+       let nc = if List.mem "two" cfg then 2 else if List.mem "three" cfg then 3 else if List.mem "four" cfg then 4 else 1 in
+       if mode = "model" then (if nc > 1 then model_machine2 nc else model_machine ())
+       else (if nc > 1 then spec_machine2 nc else spec_machine ()))
     (fun m _ toks -> exec m toks false; m)
     (fun m -> let r = m.rest () in if r = "?" then emit "end ?" else emit ("end data=" ^ r))
